@@ -152,28 +152,38 @@ Proof.
   destruct H as [-> _]. unfold MCA, ModelsA, cnf_count. rewrite H2. reflexivity.
 Qed.
 
+Lemma live_root_count d m : R loadable d m -> 0 < cnf_count (m_cs m) (m_n m) [] ->
+  0 < root_count (live_circuit d).
+Proof.
+  intros HR Hpos. destruct (answers d m HR) as [H1 H2].
+  pose proof (check_wf_WFQ _ _ H1) as HQ.
+  rewrite (count_is_MC _ _ (wfq_wf _ _ HQ)). unfold MC. rewrite H2.
+  unfold cnf_count in Hpos. cbn [contains_all forallb] in Hpos.
+  rewrite (filter_ext _ (fun _ => true)) in Hpos by reflexivity.
+  assert (forall (l : list cfg), filter (fun _ => true) l = l) as F
+      by (induction l as [|x l IH]; cbn [filter]; [reflexivity|rewrite IH; reflexivity]).
+  rewrite F in Hpos. exact Hpos.
+Qed.
+
 Theorem sat_answers d m A : R loadable d m ->
   in_range (m_n m) A -> 0 < cnf_count (m_cs m) (m_n m) [] ->
   sat (build (live_circuit d) (m_n m)) A = (0 <? cnf_count (m_cs m) (m_n m) A).
 Proof.
   intros HR HA Hpos. destruct (answers d m HR) as [H1 H2].
   pose proof (check_wf_WFQ _ _ H1) as HQ.
-  assert (0 < root_count (live_circuit d)) as Hrc.
-  { rewrite (count_is_MC _ _ (wfq_wf _ _ HQ)). unfold MC. rewrite H2.
-    unfold cnf_count in Hpos. cbn [contains_all forallb] in Hpos.
-    rewrite (filter_ext _ (fun _ => true)) in Hpos by reflexivity.
-    assert (forall (l : list cfg), filter (fun _ => true) l = l) as F
-        by (induction l as [|x l IH]; cbn [filter]; [reflexivity|rewrite IH; reflexivity]).
-    rewrite F in Hpos. exact Hpos. }
+  pose proof (live_root_count d m HR Hpos) as Hrc.
   rewrite (sat_correct _ _ A HQ Hrc HA). unfold MCA, ModelsA, cnf_count. rewrite H2. reflexivity.
 Qed.
 
-Theorem core_answers d m s l : R loadable d m -> no_dead (live_circuit d) = true ->
+(* the cached core of the live model (exact whether or not the compiled vector has dead branches:
+   C05_core_exact; before F22 this needed no_dead) *)
+Theorem core_answers d m s l : R loadable d m -> 0 < cnf_count (m_cs m) (m_n m) [] ->
   (In l (snd (core_dead_with_assumptions (build (live_circuit d) (m_n m)) [] s)) <->
    forall mo, In mo (cs_models (m_cs m) (m_n m)) -> In l mo).
 Proof.
-  intros HR Hnd. destruct (answers d m HR) as [H1 H2].
-  rewrite (core_dead_nil_correct _ _ s l (check_wf_WFQ _ _ H1) Hnd). rewrite H2. tauto.
+  intros HR Hpos. destruct (answers d m HR) as [H1 H2].
+  rewrite (core_dead_nil_correct _ _ s l (check_wf_WFQ _ _ H1) (live_root_count d m HR Hpos)).
+  rewrite H2. tauto.
 Qed.
 End Answers.
 
